@@ -97,7 +97,8 @@ func checkC08(c *Ctx) {
 	c.R.Extra["exhaustive_for_R1"] = true
 
 	// R2
-	ru2 := c.R.Rule("C08-R2", "timestamps (LastAdded / LastDeleted and their getters) are only compared, copied, or assigned from clock(): no arithmetic, no conversion, no other source", "E3 use/def scan over crdt and wasp/distributed", 2)
+	ru2 := c.R.Rule("C08-R2", "timestamps (LastAdded / LastDeleted and their getters) are only compared, copied, or assigned from clock() or from a stamp function (clock value tested greater than the stamp replaced, or that stamp plus a positive constant): no other arithmetic, no conversion, no other source", "E3 use/def scan over crdt and wasp/distributed", 2)
+	sf := c.stampFuncs(d)
 	crdtPkg := c.P.SSAPkg("crdt")
 	isStampField := func(fa *ssa.FieldAddr) bool {
 		n := fieldNameOf(fa.X.Type(), fa.Field)
@@ -136,6 +137,10 @@ func checkC08(c *Ctx) {
 							nUses++
 							switch x.Op {
 							case token.LSS, token.LEQ, token.GTR, token.GEQ, token.EQL, token.NEQ:
+							case token.ADD:
+								if !sf.ok[f] {
+									bad = "timestamp arithmetic (" + x.Op.String() + ") outside a stamp function at " + c.whereI(x)
+								}
 							default:
 								bad = "timestamp arithmetic (" + x.Op.String() + ") at " + c.whereI(x)
 							}
@@ -149,7 +154,7 @@ func checkC08(c *Ctx) {
 							nUses++
 							v := core.Strip(x.Val)
 							okSrc := false
-							if cv, ok := v.(*ssa.Call); ok && isClockCall(core.CallOf(cv)) {
+							if sf.fresh(v) {
 								okSrc = true
 							}
 							if isStampValue(v) {
@@ -204,8 +209,7 @@ func checkC08(c *Ctx) {
 					continue
 				}
 				n := fieldNameOf(fa.X.Type(), fa.Field)
-				cv, isCall := core.Strip(st.Val).(*ssa.Call)
-				fresh := isCall && isClockCall(core.CallOf(cv))
+				fresh := sf.fresh(st.Val)
 				if n == want && fresh {
 					okStamp = true
 				}
@@ -223,6 +227,7 @@ func checkC08(c *Ctx) {
 	c.ruleVisibility("C08-R6", d, 3)
 	c.ruleDelegateWiring("C08-R7", d)
 	c.ruleClockResolution("C08-R8")
+	c.ruleLocalWritesMonotone("C08-R9", d)
 }
 
 func derefNamedName(t types.Type) string {
